@@ -633,7 +633,6 @@ func c12interesting(n *c12node) bool {
 	return false
 }
 
-
 // ---- big replies: element counts and payload lengths around the decoder's preallocation bound (and far beyond)
 
 type c12big struct {
